@@ -3,6 +3,7 @@ from __future__ import annotations
 
 import ast
 import os
+import re
 from fractions import Fraction
 
 from . import e2_formula as F
@@ -99,7 +100,32 @@ def _load(ctx):
 def r1_equivalence(ctx):
     """C == Python, cut point by cut point and path by path (semantic: insensitive to temporaries, statement order, loop spelling, helper
     functions, local names and re-based counters)"""
-    _load(ctx)
+    try:
+        _load(ctx)
+    except Y.Uninitialised as e:
+        # Python: a name that is neither a parameter, a local bound on the way, a module-level name nor a builtin raises NameError /
+        # UnboundLocalError on that path - the counter returns no table for the inputs that take it.  (C: undefined behaviour; left undecided.)
+        import builtins
+        label = str(e).split(":")[0]
+        if label.startswith("py "):
+            tree = ctx.src.mod(PYFILE).tree
+            known = set(dir(builtins)) | {n.id for n in ast.walk(tree) if isinstance(n, ast.Name) and isinstance(n.ctx, ast.Store) and n.col_offset == 0}
+            for st in tree.body:
+                if isinstance(st, (ast.FunctionDef, ast.ClassDef)):
+                    known.add(st.name)
+                for x in ast.walk(st) if isinstance(st, (ast.Import, ast.ImportFrom, ast.Try, ast.If)) else ():
+                    if isinstance(x, (ast.Import, ast.ImportFrom)):
+                        known |= {(al.asname or al.name).split(".")[0] for al in x.names}
+                    elif isinstance(x, ast.Name) and isinstance(x.ctx, ast.Store):
+                        known.add(x.id)
+            fn = ctx.src.func(PYFILE, label.split()[1])
+            local = {x.id for x in ast.walk(fn) if isinstance(x, ast.Name) and isinstance(x.ctx, ast.Store)}
+            if (e.name in local or e.name not in known) and not e.name.startswith("%"):
+                ctx.fail(f"{label}: every name the kernel reads is bound on every path that reads it", fn,
+                         {"name": e.name, "path": e.path, "consequence": "NameError / UnboundLocalError instead of a cycle table for every input that takes this path"},
+                         key=f"C05-R1|{label}|unbound name")
+                return
+        raise
     SEM.r1_equivalence(ctx)
 
 
@@ -150,24 +176,7 @@ def _returned(ret):
 
 
 def _analysis(ctx, key, a):
-    """the abstract interpretation of one implementation (shared by C05-R4 and C05-R5); None when it gave up (reported by C05-R4)"""
-    from .e8_karr import GraphAnalysis, V
-    cache = ctx.__dict__.setdefault("_c05an", {})
-    if key in cache:
-        return cache[key][0]
-    ts = a["raw"]
-    Ln = ts.ex.params[1]
-    arrays = {b: ts.allocs[b]["n"] for b in ("pts", "cycle_index") if b in ts.allocs}
-    arrays["peaks"] = V(Ln)          # C05-R7 checks that both entry points pass L = the length of the 1-D peaks array
-    outs = {b: (ts.allocs[b]["rows"], ts.allocs[b]["cols"]) for b in ("rf", "os") if b in ts.allocs}
-    edges = SEM.counter_edges(a)
-    parent = {"H1": None, "H2": "H1", "H3": None, Y.EPI: None}
-    try:
-        an = GraphAnalysis(ts.nodes, edges, Y.START, parent, arrays, outs, ts.int_vars(), {}, count_col={"rf": 2}, lower={Ln: 2}).run()
-        cache[key] = (an, edges, outs, None)
-    except Unsupported as e:
-        cache[key] = (None, edges, outs, str(e))
-    return cache[key][0]
+    return SEM.analysis(ctx, key, a)
 
 
 def r4_counter_balance(ctx):
@@ -230,20 +239,38 @@ def r4_counter_balance(ctx):
                 if a["offsets"]:
                     ok = out.entails_eq(rows["rf"] - rows["os"])
                     ctx.check(ok, f"{tag}: {e['label']}: as many offset rows as value rows", where, None if ok else repr(out))
-        ctx.check(nexit >= 1, f"{tag}: the counter returns on {nexit} path(s)", where, nontrivial=False)
+        SEM.bound(ctx, nexit >= 1, f"{tag}: the counter returns on {nexit} path(s)", where)
 
 
 # ---------------------------------------------------------------------------
-INT_DTYPES = ("np.int64", "np.intp", "int", "np.int_", "numpy.int64", "numpy.intp", "np.integer")
-FLOAT_DTYPES = (None, "np.float64", "float", "np.double", "numpy.float64", "np.float_")
+INT_DTYPES = ("np.int64", "np.intp", "int", "np.int_", "numpy.int64", "numpy.intp", "np.integer", "int64", "i8", "intp", "<i8", "=i8", "numpy.int_")
+FLOAT_DTYPES = (None,) + Y.F64_NAMES
 C_INTP = ("npy_intp", "Py_ssize_t", "long", "npy_int64", "ssize_t", "intptr_t", "npy_long", "long long", "int64_t")
 C_DOUBLE = ("double", "npy_double", "npy_float64")
 NPY_INTP = ("NPY_INTP", "NPY_LONG", "NPY_INT64", "NPY_LONGLONG")
 
 
+def _like_source(ts, dt):
+    """role of the array whose element type an allocation copies (`np.empty_like(peaks)`, `np.empty(n, peaks.dtype)`), following chains; None
+    when the dtype is given explicitly"""
+    seen = set()
+    while isinstance(dt, str) and dt.startswith("like:") and dt not in seen:
+        seen.add(dt)
+        role = ts.roles.get(dt[5:], dt[5:])
+        info = ts.allocs.get(role)
+        if info is None or info["kind"] == "input":
+            return role
+        dt = info["dtype"]
+        if not (isinstance(dt, str) and dt.startswith("like:")):
+            return None
+    return None
+
+
 def r8_buffers(ctx):
-    """element types of the buffers; C: every calloc is freed exactly once on the normal exit and on the `fail` exit, nothing that is returned is
-    released, the input array is released exactly once"""
+    """element types: the Python kernels compute in float64 for every input dtype (their buffers are float64, or take the dtype of an input the
+    entry point converted to float64; no arithmetic on two values of the caller's element type), the entry points hand over the caller's values
+    unconverted or as float64 / NPY_DOUBLE, the C kernels read double*; C: every calloc is freed exactly once on the normal exit and on the `fail`
+    exit, nothing that is returned is released (net of the references a tuple takes), the input array is released at most once"""
     impl = _load(ctx)
     for (side, nm), a in impl.items():
         ts = a["raw"]
@@ -254,9 +281,47 @@ def r8_buffers(ctx):
             for arr in ("cycle_index", "os"):
                 if arr in al:
                     ctx.check(al[arr]["dtype"] in INT_DTYPES, f"{tag}: {arr} holds integers ({al[arr]['dtype']})", where)
+            handed = _handed_over(_entry_exec(ctx, "py")[1], nm)
+            # the entry point hands over the caller's values: unconverted (the kernel's double stack converts them exactly as C's NPY_DOUBLE
+            # conversion does) or converted to float64 - anything else (astype(int), float32) changes the values the C counter would see
+            bad = [(lab, cls) for lab, cls in handed if cls not in ("f64", "unspecified")]
+            ok = bool(handed) and not bad
+            ctx.check(ok, f"{tag}: py_rain.rainflow hands the kernel the caller's values unconverted or as float64", where,
+                      None if ok else [f"[{lab}] element type {cls}" for lab, cls in bad] or "no dispatching path found", key=f"C05-R8|{tag}|entry conversion")
             for arr in ("pts", "rf"):
-                ctx.check(al[arr]["dtype"] in FLOAT_DTYPES, f"{tag}: {arr} holds doubles ({al[arr]['dtype'] or 'default dtype'})", where)
+                dt = al[arr]["dtype"]
+                src = _like_source(ts, dt)
+                if src is None:
+                    ctx.check(dt in FLOAT_DTYPES, f"{tag}: {arr} holds doubles ({dt or 'default dtype'})", where, key=f"C05-R8|{tag}|{arr}|float64")
+                    continue
+                # the buffer takes the element type of the caller's array: the C kernel computes on a double stack whatever the caller passes, so
+                # the public entry point must have converted the sequence to float64 before this kernel sees it
+                bad = [(lab, cls) for lab, cls in handed if cls != "f64"]
+                ok = src == "peaks" and bool(handed) and not bad
+                ctx.check(ok, f"{tag}: {arr} holds doubles (it takes the element type of `{src}`, which is float64 for every caller)", where,
+                          None if ok else {"dtype": dt, "handed over by py_rain.rainflow": [f"[{lab}] element type {cls}" for lab, cls in (bad or handed)] or "no dispatching path found",
+                                           "consequence": "ranges, the X < Y decision, amplitude and mean are computed in the caller's dtype (unsigned wrap-around, "
+                                                          "integer overflow, float32 rounding) while the C kernel computes in double"},
+                          key=f"C05-R8|{tag}|{arr}|float64")
+            # no arithmetic on two values that both still have the caller's element type
+            bad = SEM.input_typed_arithmetic(a, lambda b: _like_source(ts, al[b]["dtype"]) is not None if b in al and b != "peaks" else b == "peaks")
+            conv = bool(handed) and all(cls == "f64" for lab, cls in handed)
+            ok = not bad or conv
+            ctx.check(ok, f"{tag}: every difference and sum of signal values has a float64 operand (a double buffer, or the caller's array after the "
+                          "entry point converted it)", where, None if ok else {"computed in the caller's dtype": bad[:4]}, key=f"C05-R8|{tag}|arithmetic in float64")
             continue
+        # the C kernel reads the array's data as `double *`: the entry point must have converted to NPY_DOUBLE
+        rd = [(s[1][1], ts.ex.f.qual.get(s[1][1], "")) for s in R.walk_ir(ts.ex.f.body)
+              if s[0] == "set" and s[1][0] == "var" and s[2][0] == "call" and s[2][1] in ("PyArray_DATA", "PyArray_BYTES") and s[2][2]
+              and s[2][2][0] == ("var", ts.ex.params[0])]
+        ok = bool(rd) and all(re.sub(r"\b(const|volatile|restrict)\b|\*|\s", "", q) in C_DOUBLE for _, q in rd)
+        ctx.check(ok, f"{tag}: the input array's data is read as double ({', '.join(q for _, q in rd) or 'no PyArray_DATA of the input found'})", where,
+                  key=f"C05-R8|{tag}|input read as double")
+        handed = _handed_over(_entry_exec(ctx, "C")[1], nm)
+        bad = [(lab, cls) for lab, cls in handed if cls != "f64"]
+        ok = bool(handed) and not bad
+        ctx.check(ok, f"{tag}: c_rain.rainflow converts the caller's sequence to an NPY_DOUBLE array before the kernel reads it as double*", where,
+                  None if ok else [f"[{lab}] element type {cls}" for lab, cls in (bad or handed)] or "no dispatching path found", key=f"C05-R8|{tag}|NPY_DOUBLE")
         ctx.check(al["pts"]["dtype"] in C_DOUBLE, f"{tag}: the value stack is allocated with sizeof(double) ({al['pts']['dtype']})", where)
         ctx.check(al["rf"]["dtype"] == "NPY_DOUBLE", f"{tag}: the cycle table is an NPY_DOUBLE array ({al['rf']['dtype']})", where)
         if a["offsets"]:
@@ -282,11 +347,14 @@ def r8_buffers(ctx):
             rets = _returned(t["ret"]) or []
             for r in rets:
                 n = sum(1 for e in ev if e[0] == "decref" and e[1] == r[1])
+                m = sum(1 for e in ev if e[0] == "incref" and e[1] == r[1])
+                # references: 1 from the allocation + m taken (a tuple built with PyTuple_Pack / format "O" takes its own) - n released
                 if r[0] == "whole":
-                    ctx.check(n == 0, f"{tag}: {label}: the returned array {r[1]} is not released ({n} DECREF)", where)
+                    ctx.check(n - m <= 0, f"{tag}: {label}: the returned array {r[1]} is not released (the caller gets a live reference: "
+                                          f"{m} INCREF, {n} DECREF)", where)
                 else:
-                    ctx.check(n <= 1, f"{tag}: {label}: the array behind the returned view of {r[1]} is released at most once ({n} DECREF)", where)
-        ctx.check(nend >= 1, f"{tag}: release rule bound to {nend} normal exits", where, nontrivial=False)
+                    ctx.check(n - m <= 1, f"{tag}: {label}: the array behind the returned view of {r[1]} is released at most once ({m} INCREF, {n} DECREF)", where)
+        SEM.bound(ctx, nend >= 1, f"{tag}: release rule bound to {nend} normal exits", where)
         # the `fail` exit: every calloc'ed buffer is freed there
         body = ts.ex.f.body
         names = {orig for orig, role in ts.roles.items() if role in work}
@@ -296,7 +364,7 @@ def r8_buffers(ctx):
             if not at:
                 ctx.error(f"{tag}: label {lab} is not at the top level of the function", where)
                 continue
-            freed = [s[1][2][0][1] for s in body[at[0]:] if s[0] == "expr" and s[1][0] == "call" and s[1][1] == "free" and s[1][2] and s[1][2][0][0] == "var"]
+            freed = [s[1][2][0][1] for s in body[at[0]:] if s[0] == "expr" and s[1][0] == "call" and s[1][1] in Y.FREE_NAMES and s[1][2] and s[1][2][0][0] == "var"]
             ok = names <= set(freed) and len(freed) == len(set(freed))
             ctx.check(ok, f"{tag}: the `{lab}` exit frees every calloc'ed buffer exactly once ({sorted(freed)})", where)
 
@@ -334,11 +402,15 @@ def _entry_rule(ctx, tag, ex, where, arr_ok, is_flag, kernels):
             ctx.check(ok, f"{tag} [{label}]: the kernel receives the caller's sequence as an array", where, None if ok else Y.show(ret), key=f"C05-R7|{tag}|array argument")
             if not ok:
                 continue
-            size = Y.opq_name(("opq", "size", (args[0],), "int"))
-            ndim = Y.opq_name(("opq", "ndim", (args[0],), "int"))
+            size = Y.opq_name(("opq", "size", (Y.arr_id(args[0]),), "int"))
+            ndim = Y.opq_name(("opq", "ndim", (Y.arr_id(args[0]),), "int"))
             la = ts.aff(args[1]) if ts.is_int(args[1]) else None
             from .e8_karr import V
             ok = la is not None and not (la - V(size)).c and (la - V(size)).k == 0
+            if not ok and (la is None or any(v.startswith("<") and v != size for v in la.c)):
+                # a length computed by a call this engine has no model for: nothing is proved either way
+                ctx.error(f"{tag} [{label}]: the length handed to the kernel is not an expression this engine can read", where, Y.show(args[1]))
+                continue
             ctx.check(ok, f"{tag} [{label}]: the length handed to the kernel is the size of that array", where, None if ok else Y.show(args[1]), key=f"C05-R7|{tag}|length argument")
             ok = not feasible(cons + [(V(ndim) - 2, "ge")]) and not feasible(cons + [(-V(ndim), "ge")])
             ctx.check(ok, f"{tag} [{label}]: the kernel is reached only with a 1-d array", where, key=f"C05-R7|{tag}|ndim")
@@ -363,7 +435,37 @@ def _entry_rule(ctx, tag, ex, where, arr_ok, is_flag, kernels):
                     extra.append((V(v) - 2, "ge"))
             ok = not Y.feasible_with(cons + extra, disj)
             ctx.check(ok, f"{tag} [{label}]: no 1-d sequence of length >= 2 is refused", where, key=f"C05-R7|{tag}|accepts length 2")
-    ctx.check(nret >= 2 and nrefuse >= 1, f"{tag}: {nret} dispatching and {nrefuse} refusing paths", where, nontrivial=False)
+    SEM.bound(ctx, nret >= 2 and nrefuse >= 1, f"{tag}: {nret} dispatching and {nrefuse} refusing paths", where)
+
+
+def _entry_exec(ctx, side):
+    """(unit, symbolic execution of the public entry point `rainflow` with the kernels opaque), shared by C05-R7 and C05-R8"""
+    cache = ctx.__dict__.setdefault("_c05entry", {})
+    if side not in cache:
+        if side == "py":
+            unit = R.PyUnit(ctx.src.mod(PYFILE).tree)
+            ex = Y.Exec(unit, "rainflow", mode="entry", param_kinds=[None, None], label="py_rain.rainflow")
+        else:
+            unit = R.CUnit(os.path.join(ctx.repo, CFILE))
+            ex = Y.Exec(unit, "rainflow", mode="entry", param_kinds=[None, None, None], label="c_rain.rainflow")
+        ex.opaque = set(KERNELS)
+        ex.run()
+        cache[side] = (unit, ex)
+    return cache[side]
+
+
+def _handed_over(ex, kernel):
+    """[(path label, element-type class of the array the entry point hands to `kernel`)] over the dispatching paths"""
+    out = []
+    for t in ex.trans:
+        ret = t["ret"]
+        if ret is not None and ret[0] == "opq" and ret[1] == kernel:
+            args = [x for x in ret[2] if not (isinstance(x, tuple) and x and x[0] == "kw")]
+            label = " and ".join(("" if tk else "not ") + Y.show(x) for x, tk in t["key"]) or "always"
+            a0 = args[0] if args else None
+            cls = Y.dtype_class(a0[3]) if a0 is not None and a0[0] == "obj" and a0[1] == "asarray" and len(a0) == 4 else "unspecified"
+            out.append((label, cls))
+    return out
 
 
 class _ModEval:
@@ -373,6 +475,7 @@ class _ModEval:
     def __init__(self, scenario):
         self.sc = scenario
         self.caught = []          # handler types that caught a simulated ImportError
+        self.imported = set()     # dotted names of the modules an import statement has loaded so far (with their parents)
 
     class Raise(Exception):
         pass
@@ -381,16 +484,36 @@ class _ModEval:
         def __init__(self, v):
             self.v = v
 
+    @staticmethod
+    def truth(v):
+        """truth value of a known value (a module or function object is true, None is false); None when not known"""
+        if isinstance(v, bool):
+            return v
+        if isinstance(v, tuple) and v:
+            return v[0] != "none"
+        return None
+
     def ev(self, n, env):
         if isinstance(n, ast.Constant):
-            return n.value if isinstance(n.value, bool) else None
+            return n.value if isinstance(n.value, bool) else ("none",) if n.value is None else None
         if isinstance(n, ast.Name):
             return env.get(n.id)
+        if isinstance(n, ast.Attribute):
+            v = self.ev(n.value, env)
+            if isinstance(v, tuple) and v[0] == "mod" and f"{v[1]}.{n.attr}" in self.imported:
+                return ("mod", f"{v[1]}.{n.attr}")          # a sub-module that an import statement has loaded
+            return None
         if isinstance(n, ast.UnaryOp) and isinstance(n.op, ast.Not):
-            v = self.ev(n.operand, env)
+            v = self.truth(self.ev(n.operand, env))
             return (not v) if isinstance(v, bool) else None
+        if isinstance(n, ast.Compare) and len(n.ops) == 1 and isinstance(n.ops[0], (ast.Is, ast.IsNot, ast.Eq, ast.NotEq)):
+            a, b = self.ev(n.left, env), self.ev(n.comparators[0], env)
+            known = lambda x: isinstance(x, bool) or (isinstance(x, tuple) and x and x[0] in ("none", "mod"))      # noqa: E731
+            if known(a) and known(b):
+                return (a == b) == isinstance(n.ops[0], (ast.Is, ast.Eq))
+            return None
         if isinstance(n, ast.BoolOp):
-            vs = [self.ev(v, env) for v in n.values]
+            vs = [self.truth(self.ev(v, env)) for v in n.values]
             if isinstance(n.op, ast.And):
                 if any(v is False for v in vs):
                     return False
@@ -426,12 +549,15 @@ class _ModEval:
                 for al in st.names:
                     if self.sc.get(al.name) is False:
                         raise _ModEval.Raise()
+                    parts = al.name.split(".")
+                    self.imported |= {".".join(parts[:i + 1]) for i in range(len(parts))}
                     env[al.asname or al.name.split(".")[0]] = ("mod", al.name if al.asname else al.name.split(".")[0])
             elif isinstance(st, ast.ImportFrom):
                 for al in st.names:
                     full = f"{st.module}.{al.name}"
                     if self.sc.get(st.module) is False or self.sc.get(full) is False:
                         raise _ModEval.Raise()
+                    self.imported.add(full)
                     env[al.asname or al.name] = ("mod", full)
             elif isinstance(st, ast.Try):
                 try:
@@ -447,7 +573,7 @@ class _ModEval:
                     self.run(st.orelse, env)
                 self.run(st.finalbody, env)
             elif isinstance(st, ast.If):
-                v = self.ev(st.test, env)
+                v = self.truth(self.ev(st.test, env))
                 if v is True:
                     self.run(st.body, env)
                 elif v is False:
@@ -546,13 +672,10 @@ def r7_selection(ctx):
     fn = ctx.src.func(PYFILE, "rainflow")
     args = [a.arg for a in fn.args.args]
     ctx.check(args[:1] == ["peaks"] and args[1:2] == ["getoffsets"] and len(args) == 2, "py_rain.rainflow(peaks, getoffsets)", fn, nontrivial=False)
-    pu = R.PyUnit(ctx.src.mod(PYFILE).tree)
-    ex = Y.Exec(pu, "rainflow", mode="entry", param_kinds=[None, None], label="py_rain.rainflow")
-    ex.opaque = set(KERNELS)
-    ex.run()
+    pu, ex = _entry_exec(ctx, "py")
     p0 = ("opq", "param", (("str", args[0]),), "any") if args else None
     p1 = ("opq", "param", (("str", args[1]),), "any") if len(args) > 1 else None
-    _entry_rule(ctx, "py_rain.rainflow", ex, fn, lambda v: v == ("obj", "asarray", p0), lambda v: v == p1 or v == Y.opq_name(p1) if p1 else False,
+    _entry_rule(ctx, "py_rain.rainflow", ex, fn, lambda v: Y.arr_id(v) == ("obj", "asarray", p0), lambda v: v == p1 or v == Y.opq_name(p1) if p1 else False,
                 {k: v for k, v in KERNELS.items() if k.startswith("_")})
     # numba rebinding: only jit(nopython=True) of the same functions
     mod = ctx.src.mod(PYFILE)
@@ -564,10 +687,7 @@ def r7_selection(ctx):
             and _jit_ok(v.func, mod)
         ctx.check(ok, f"py_rain rebinds {r.targets[0].id} only to numba.jit(nopython=True) of itself", r)
     # C entry point
-    cu = R.CUnit(os.path.join(ctx.repo, CFILE))
-    ex = Y.Exec(cu, "rainflow", mode="entry", param_kinds=[None, None, None], label="c_rain.rainflow")
-    ex.opaque = set(KERNELS)
-    ex.run()
+    cu, ex = _entry_exec(ctx, "C")
     cw = f"{CFILE} (rainflow)"
     parses = {e for t in ex.trans for e in t["events"] if e[0] == "parse"}
     ok = len(parses) == 1 and next(iter(parses))[1] == "O|p" and next(iter(parses))[3] == 2
@@ -579,7 +699,7 @@ def r7_selection(ctx):
     def c_flag(v):
         s = v if isinstance(v, str) else Y.opq_name(v) if isinstance(v, tuple) and v and v[0] == "opq" else ""
         return s.startswith("<arg(1")
-    _entry_rule(ctx, "c_rain.rainflow", ex, cw, lambda v: v == ("obj", "asarray", a0), c_flag, {k: v for k, v in KERNELS.items() if not k.startswith("_")})
+    _entry_rule(ctx, "c_rain.rainflow", ex, cw, lambda v: Y.arr_id(v) == ("obj", "asarray", a0), c_flag, {k: v for k, v in KERNELS.items() if not k.startswith("_")})
     # setup.py builds exactly this file
     sp = os.path.join(ctx.repo, "setup.py")
     if os.path.exists(sp):
@@ -660,7 +780,7 @@ def r9_wrapper_transparency(ctx):
             ok = ret is not None and not is_unknown(ret) and (repr(ret) == "rf_table" or S.same(ret, S.ev.ev(calls[0][3])))
         ctx.check(ok, "cyclecount.rainflow: returns the implementation's table(s) unchanged (DataFrame wrapping aside)", S.ret_node(),
                   None if ok else {"path": how, "returned": repr(ret)}, key="C05-R9|rainflow|returned tables")
-    ctx.check(npaths >= 4, "cyclecount.rainflow: at least the four getoffsets x use_pandas paths were evaluated", fn, npaths, nontrivial=False)
+    SEM.bound(ctx, npaths >= 4, f"cyclecount.rainflow: at least the four getoffsets x use_pandas paths were evaluated ({npaths})", fn)
 
 
 RULES = [
@@ -671,7 +791,7 @@ RULES = [
     ("C05-R5", r5_lockstep, 12),
     ("C05-R6", r6_value_flow, 150),
     ("C05-R7", r7_selection, 30),
-    ("C05-R8", r8_buffers, 30),
+    ("C05-R8", r8_buffers, 40),
     ("C05-R9", r9_wrapper_transparency, 16),
 ]
 LEVEL = "translation_validation"
@@ -685,7 +805,9 @@ EXPLANATION = ("Static translation validation between the two rainflow implement
                "array elements); each is compared the same way with a transcription of ASTM E1049-85 5.4.4; offsets are in lock-step with values; data "
                "reaches control flow only through |p-q| < |r-s|; an abstract interpretation (affine equalities + template inequalities, "
                "verifier/e8_karr.py, invariants inferred per program) proves every buffer index in range, output rows written consecutively and below "
-               "capacity, the returned prefix == the rows written (in the program's own exit expression) and 2*sum(counts) == L-1; calloc/free pairing.")
+               "capacity, the returned prefix == the rows written (in the program's own exit expression) and 2*sum(counts) == L-1; calloc/free pairing; "
+               "element types: every buffer the Python kernels compute ranges in is float64 whatever the caller's dtype (or the entry point converted "
+               "the sequence to float64), the C entry point converts to NPY_DOUBLE what the kernels read as double*.")
 MANIFEST = {
     "text": "Decided statically for all inputs of length >= 2: the C and Python counting loops are the same transition system (same decisions, same effect "
             "of every path between loop heads on the stack, the output rows and the counters, identical floating-point expression trees up to x/2 == 0.5*x "
@@ -696,7 +818,10 @@ MANIFEST = {
             "Karr's affine-equality domain plus template inequalities) for every L >= 2 every stack / input index lies within the allocated length, the "
             "output rows are written whole, consecutively from row 0 and below the allocated capacity, on exit the returned prefix is exactly the rows "
             "written, both tables have the same number of rows and the counts sum to (L-1)/2; (C05-R9) on every syntactic path the public "
-            "wrapper cyclecount.rainflow hands the caller's sequence itself to the bound implementation and returns its tables unchanged. Not decided: numba's compilation, bit-level FP of the two compilers.",
+            "wrapper cyclecount.rainflow hands the caller's sequence itself to the bound implementation and returns its tables unchanged; (C05-R8) the "
+            "arithmetic of both implementations is in double precision for every input dtype: the Python stack / table are float64 buffers (never the "
+            "caller's dtype unless py_rain.rainflow converted the sequence to float64 first), no difference or sum is formed of two values that still "
+            "have the caller's element type, the C entry point converts to NPY_DOUBLE and the kernels read double*. Not decided: numba's compilation, bit-level FP of the two compilers.",
     "note": "Trusted: clang-14 as parser of c_rain.c with the build's include paths; CPython ast; IEEE conformance of both compilers on identical expression trees; allocation calls succeed (the failure exits are checked only for releasing the buffers).",
     "technique": "static translation validation: clang JSON AST and Python AST lowered to a common IR, symbolic execution into transition systems between loop heads, semantic comparison up to a derived change of variables + comparison with an ASTM E1049 reference automaton; abstract interpretation (Karr affine equalities + template inequalities) for counter balance and buffer bounds",
 }
